@@ -136,6 +136,11 @@ func c17Sub(r *rand.Rand, bin, dir string, id int) c17Case {
 	for i := 0; i < n; i++ {
 		args = append(args, c17HostileArgs[r.Intn(len(c17HostileArgs))])
 	}
+	if len(args) > 0 && args[0] == "save-pipeline" && r.Intn(2) == 0 {
+		// command texts with an empty step: an or-chain, a trailing / leading / doubled pipe, nothing at all
+		args = []string{"save-pipeline", []string{"stats", "my pipe", "n"}[r.Intn(3)],
+			[]string{"a || b", "ps aux | sort |", "| sort", "", " ", "cat f | | wc -l", "x |\t| y", "grep x f || echo none", "a|b|c"}[r.Intn(9)]}
+	}
 	home := filepath.Join(dir, fmt.Sprintf("home%d", id))
 	cwd := filepath.Join(dir, fmt.Sprintf("cwd%d", id))
 	os.MkdirAll(home, 0o755)
@@ -221,6 +226,8 @@ func c17Search(r *rand.Rand, bin, dir string, id int) c17Case {
 		q = strings.ReplaceAll(q, " ", "   ")
 	case 2:
 		q = "zzqx " + q // likely no lexical match: typo fallback / recovery
+	case 3: // quotes that reach the program (cmd.exe passes them through), blanks inside them
+		q = []string{"' " + q + " '", "\"" + q + " \"", "'" + q + "'", "''", "\" \""}[len(q)%5]
 	}
 	c.Query = ints(q)
 	args := []string{}
@@ -289,8 +296,22 @@ func c17Search(r *rand.Rand, bin, dir string, id int) c17Case {
 	histPath := filepath.Join(home, ".config", "wtf", "search_history.json")
 	if r.Intn(3) == 0 {
 		os.MkdirAll(filepath.Dir(histPath), 0o755)
-		os.WriteFile(histPath, []byte(`{"entries":[{"query":"older","timestamp":"2024-01-01T00:00:00Z","results_count":1}],"max_size":100}`), 0o644)
-		c.HistBefore = 1
+		good := `{"entries":[{"query":"older","timestamp":"2024-01-01T00:00:00Z","results_count":1}],"max_size":100}`
+		switch id % 5 {
+		case 1: // a history file that cannot be read back: cut short by an interrupted write, a field of the wrong type, another shape
+			os.WriteFile(histPath, []byte(good[:len(good)/2]), 0o644)
+		case 2:
+			os.WriteFile(histPath, []byte(strings.Replace(good, `"results_count":1`, `"results_count":"one"`, 1)), 0o644)
+		case 3:
+			os.WriteFile(histPath, []byte(`[{"query":"older"}]`), 0o644)
+		default:
+			os.WriteFile(histPath, []byte(good), 0o644)
+			c.HistBefore = 1
+		}
+		if c.HistBefore == 0 {
+			data, _ := os.ReadFile(histPath)
+			os.WriteFile(histPath+".asplaced", data, 0o644)
+		}
 	}
 	run := c17Exec(bin, home, cwd, env, args, "")
 	c.Exit, c.Panic, c.Stdout = run.exit, run.panic, ints(string(run.stdout))
@@ -345,6 +366,8 @@ func c17Search(r *rand.Rand, bin, dir string, id int) c17Case {
 				c.HistLast = ints(h.Entries[n-1].Query)
 				c.HistLastN = h.Entries[n-1].ResultsCount
 			}
+		} else if damaged, _ := os.ReadFile(histPath + ".asplaced"); len(damaged) > 0 && bytes.Equal(damaged, data) {
+			c.HistAfter = 0 // the unreadable file that was placed before the run is still there, untouched: no entry, as before
 		} else {
 			c.HistAfter = -1
 		}
